@@ -193,11 +193,10 @@ def linearBuildI (baseRxns : List (Name × List (Name × Int))) (lv : List (Name
 
 /-! ### stoichiometric coefficients as the base model stores them (`float | Derived`) -/
 
-/-- Python's `int(q)` for a float: truncation towards zero -/
-def pyTrunc (q : Rat) : Int := if 0 ≤ q then q.floor else -((-q).floor)
-
-/-- `_unpack_stoichiometries` on raw coefficients: a `Derived` raises `NotImplementedError`; a
-    negative value `v` goes to the substrates as `int(-v)`, any other to the products as `int(v)` -/
+/-- `_unpack_stoichiometries` on raw coefficients, entry by entry (after repo commit "fix:
+    LinearLabelMapper refuses a fractional stoichiometric coefficient ..."): a `Derived` raises
+    `NotImplementedError`; `n = int(v)`, `n != v` — a float that is not a whole number — raises
+    `ValueError`; a negative `n` goes to the substrates as `-n`, any other to the products -/
 def unpackLinRaw : List (Name × Mxl.C05.Coef) → Except LErr (List (Name × Nat) × List (Name × Nat))
   | [] => .ok ([], [])
   | (k, c) :: rest =>
@@ -206,9 +205,12 @@ def unpackLinRaw : List (Name × Mxl.C05.Coef) → Except LErr (List (Name × Na
     | .int v => do
       let (s, p) ← unpackLinRaw rest
       if v < 0 then pure ((k, (-v).toNat) :: s, p) else pure (s, (k, v.toNat) :: p)
-    | .float q => do
-      let (s, p) ← unpackLinRaw rest
-      if q < 0 then pure ((k, (pyTrunc (-q)).toNat) :: s, p) else pure (s, (k, (pyTrunc q).toNat) :: p)
+    | .float q =>
+      if ((Mxl.C05.pyTrunc q : Int) : Rat) = q then do
+        let (s, p) ← unpackLinRaw rest
+        if Mxl.C05.pyTrunc q < 0 then pure ((k, (-(Mxl.C05.pyTrunc q)).toNat) :: s, p)
+        else pure (s, (k, (Mxl.C05.pyTrunc q).toNat) :: p)
+      else .error .valueError
 
 /-- body of `for rxn_name, label_map in self.label_maps.items()` on raw coefficients: `raw` lists the
     reactions whose coefficients are not all Python `int`s -/
